@@ -47,6 +47,21 @@ def cases(tier, seed):
         spec = S.mk(n, obj, rows, vk)
         for sc in G.scalings_of(spec, scA):
             out.append({"t": "A", "spec": spec, "cfg": {"iteration_limit": HORIZON[tier]}, "sc": sc})
+    # (A') ranged rows of large magnitude and tiny relative width, active at either end
+    for obj in ("qdiag", "qin", "lin"):
+        for vk in (["free", "free"], ["boxed", "free"]):
+            for rows in ([("affine", "narrow")], [("affine", "narrow"), ("affine", "eqoff")]):
+                spec = S.mk(2, obj, rows, vk)
+                for sc in G.scalings_of(spec, (0, 1)):
+                    out.append({"t": "A", "spec": spec, "cfg": {"iteration_limit": HORIZON[tier]}, "sc": sc})
+    # (A'') variables of large magnitude started a few 1e-3 inside a bound the objective pushes against
+    for off in (4e-3, 1e-5, 0.0):
+        for g in ([-2.0, 1.0], [-2.0, -3.0]):
+            sp = G.raw(2, {"g": g, "H": [[1e-6, 0.0], [0.0, 1e-6]]}, [], [-1.0e6, -1.0e6], [2.0e6, 2.0e6], [2.0e6 - off, 0.0], f"bigbox_near_bound|{off}|{g}")
+            out.append({"t": "A", "spec": sp, "cfg": {"iteration_limit": HORIZON[tier]}, "sc": None})
+            sp2 = G.raw(2, {"g": g, "H": [[1e-6, 0.0], [0.0, 1e-6]]}, [{"a": [1.0, 1.0], "b": 0.0, "lb": "-inf", "ub": 2.5e6}], [-1.0e6, -1.0e6], [2.0e6, 2.0e6],
+                        [2.0e6 - off, 1.0], f"bigbox_near_bound_cons|{off}|{g}")
+            out.append({"t": "A", "spec": sp2, "cfg": {"iteration_limit": HORIZON[tier]}, "sc": None})
     # (B)
     cfgs = G.configs_pairs() if tier == "quick" else G.configs_full()
     specsB = G.core_specs()
